@@ -33,7 +33,9 @@ type c12Entry struct {
 
 func c12Entries() []c12Entry {
 	L, O := at.NewList, at.NewObject
-	cb := func(v interface{}) func(int, interface{}) interface{} { return func(int, interface{}) interface{} { return v } }
+	cb := func(v interface{}) func(int, interface{}) interface{} {
+		return func(int, interface{}) interface{} { return v }
+	}
 	ocb := func(v interface{}) func(string, interface{}) interface{} {
 		return func(string, interface{}) interface{} { return v }
 	}
@@ -41,15 +43,45 @@ func c12Entries() []c12Entry {
 		{"NewList(v)", func(v interface{}, t *interface{}) (interface{}, interface{}) { return L(v), 0 }},
 		{"NewList(1,v,2)", func(v interface{}, t *interface{}) (interface{}, interface{}) { return L(1, v, 2), 1 }},
 		{"NewListOf(v,3)", func(v interface{}, t *interface{}) (interface{}, interface{}) { return at.NewListOf(v, 3), 2 }},
-		{"NewListFrom([]any{v})", func(v interface{}, t *interface{}) (interface{}, interface{}) { return at.NewListFrom([]interface{}{v}), 0 }},
+		{"NewListFrom([]any{v})", func(v interface{}, t *interface{}) (interface{}, interface{}) {
+			return at.NewListFrom([]interface{}{v}), 0
+		}},
 		{"Add(v)", func(v interface{}, t *interface{}) (interface{}, interface{}) { l := L(7); *t = l; return l.Add(v), 1 }},
-		{"Add(1,v)", func(v interface{}, t *interface{}) (interface{}, interface{}) { l := L(); *t = l; return l.Add(1, v), 1 }},
-		{"Insert(1,v) middle", func(v interface{}, t *interface{}) (interface{}, interface{}) { l := L(1, 2); *t = l; return l.Insert(1, v), 1 }},
-		{"Insert(n,v) end", func(v interface{}, t *interface{}) (interface{}, interface{}) { l := L(1); *t = l; return l.Insert(1, v), 1 }},
-		{"Replace(0,v)", func(v interface{}, t *interface{}) (interface{}, interface{}) { l := L(1, 2); *t = l; return l.Replace(0, v), 0 }},
-		{"list.SetTF(#0,v) append", func(v interface{}, t *interface{}) (interface{}, interface{}) { l := L(); *t = l; return l.SetTF("#0", v), 0 }},
-		{"list.SetTF(#0,v) replace", func(v interface{}, t *interface{}) (interface{}, interface{}) { l := L(1); *t = l; return l.SetTF("#0", v), 0 }},
-		{"list.SetTF(#2,v) pad", func(v interface{}, t *interface{}) (interface{}, interface{}) { l := L(); *t = l; return l.SetTF("#2", v), 2 }},
+		{"Add(1,v)", func(v interface{}, t *interface{}) (interface{}, interface{}) {
+			l := L()
+			*t = l
+			return l.Add(1, v), 1
+		}},
+		{"Insert(1,v) middle", func(v interface{}, t *interface{}) (interface{}, interface{}) {
+			l := L(1, 2)
+			*t = l
+			return l.Insert(1, v), 1
+		}},
+		{"Insert(n,v) end", func(v interface{}, t *interface{}) (interface{}, interface{}) {
+			l := L(1)
+			*t = l
+			return l.Insert(1, v), 1
+		}},
+		{"Replace(0,v)", func(v interface{}, t *interface{}) (interface{}, interface{}) {
+			l := L(1, 2)
+			*t = l
+			return l.Replace(0, v), 0
+		}},
+		{"list.SetTF(#0,v) append", func(v interface{}, t *interface{}) (interface{}, interface{}) {
+			l := L()
+			*t = l
+			return l.SetTF("#0", v), 0
+		}},
+		{"list.SetTF(#0,v) replace", func(v interface{}, t *interface{}) (interface{}, interface{}) {
+			l := L(1)
+			*t = l
+			return l.SetTF("#0", v), 0
+		}},
+		{"list.SetTF(#2,v) pad", func(v interface{}, t *interface{}) (interface{}, interface{}) {
+			l := L()
+			*t = l
+			return l.SetTF("#2", v), 2
+		}},
 		{"list.SetTF(#0.k,v)", func(v interface{}, t *interface{}) (interface{}, interface{}) {
 			l := L()
 			*t = l
@@ -66,13 +98,21 @@ func c12Entries() []c12Entry {
 		{"NewObjectFrom(map[string]any{k:v})", func(v interface{}, t *interface{}) (interface{}, interface{}) {
 			return at.NewObjectFrom(map[string]interface{}{"k": v}), "k"
 		}},
-		{"Set(k,v)", func(v interface{}, t *interface{}) (interface{}, interface{}) { o := O("z", 1); *t = o; return o.Set("k", v), "k" }},
+		{"Set(k,v)", func(v interface{}, t *interface{}) (interface{}, interface{}) {
+			o := O("z", 1)
+			*t = o
+			return o.Set("k", v), "k"
+		}},
 		{"Set(a,1,k,v) overwrite", func(v interface{}, t *interface{}) (interface{}, interface{}) {
 			o := O("k", "old")
 			*t = o
 			return o.Set("a", 1, "k", v), "k"
 		}},
-		{"object.SetTF(.k,v)", func(v interface{}, t *interface{}) (interface{}, interface{}) { o := O(); *t = o; return o.SetTF(".k", v), "k" }},
+		{"object.SetTF(.k,v)", func(v interface{}, t *interface{}) (interface{}, interface{}) {
+			o := O()
+			*t = o
+			return o.SetTF(".k", v), "k"
+		}},
 		{"object.SetTF(.a.k,v)", func(v interface{}, t *interface{}) (interface{}, interface{}) {
 			o := O()
 			*t = o
